@@ -83,26 +83,28 @@ def cli_case(ctx, res, texts, use_stdin, as_filter=False, dash=None):
             with open(p, "w", newline="") as f:
                 f.write(t)
             argv.append(p)
-    stdin_text = (texts[0] if as_filter else texts[dash_at]) if use_stdin else None
-    if use_stdin and stdin_text is not None:
-        # sys.stdin iteration sees text after universal-newline translation
-        stdin_text = stdin_text.replace("\r\n", "\n").replace("\r", "\n")
+    # standard input is handed over as it is: on POSIX Python does not translate its newlines (only LF ends a line there)
+    stdin_at = (0 if as_filter else dash_at) if use_stdin else None
+    stdin_text = texts[stdin_at] if use_stdin else None
     status, out = run_cli(PrettierCli().run, argv, stdin_text=stdin_text)
     texts_in_order = texts
-    model = drv([f"prettier {cps(t)}" for t in texts_in_order])
-    mo = "".join(uncps(x) + "\n" for m in model if m != "" for x in m.split(";"))
+    model = drv(["prettier2 " + " ".join(("1 " if k == stdin_at else "0 ") + cps(t) for k, t in enumerate(texts_in_order))])[0]
+    mo = "".join(uncps(x) + "\n" for x in model.split(";")) if model != "" else ""
     st.see((tuple(texts), use_stdin))
     st.compared += 1
     res.count("cli_files=%d" % len(texts))
     if status != "ok0" or out != mo:
         res.disagree("cli", {"texts": texts, "stdin": use_stdin}, mo, [status, out])
-    n_in = sum(len(t.replace("\r\n", "\n").replace("\r", "\n").splitlines(keepends=True) if False else
-                   [x for x in t.replace("\r\n", "\n").replace("\r", "\n").split("\n")][: -1 if t.replace("\r\n", "\n").replace("\r", "\n").endswith("\n") or t == "" else None])
-               for t in texts)
+    def lines_of(k, t):
+        u = (t if k == stdin_at else t.replace("\r\n", "\n").replace("\r", "\n")).split("\n")
+        if u and u[-1] == "":
+            u.pop()
+        return u
+    n_in = sum(len(lines_of(k, t)) for k, t in enumerate(texts))
     # the property itself on what the tool printed: every input line through the character automaton of the specification
     in_lines = []
-    for t in texts_in_order:
-        u = t.replace("\r\n", "\n").replace("\r", "\n").split("\n")
+    for k, t in enumerate(texts_in_order):
+        u = (t if k == stdin_at else t.replace("\r\n", "\n").replace("\r", "\n")).split("\n")
         if u and u[-1] == "":
             u.pop()
         in_lines += u
@@ -159,6 +161,20 @@ def run(ctx, res):
     for dash in (0, 1, 2):
         cli_case(ctx, res, ["first a\n", "second \"b\n", "third c"], use_stdin=True, dash=dash)
     cli_case(ctx, res, ["only x\n", "y\n"], use_stdin=True, dash=0)
+    # a real process fed through a pipe: CR LF and lone CR on standard input are not translated (checked against the model of stdin sources)
+    import subprocess
+    import proc as P
+    from common import PY
+    raw = "a \"x\r\nb\" y\rc\nd\r\n"
+    for argv in ([], ["-"]):
+        pr = subprocess.run([PY, "-B", "-m", "moto_prettier"] + argv, input=raw.encode(), capture_output=True, env=P.env(), timeout=300)
+        m = drv([f"prettier2 1 {cps(raw)}"])[0]
+        want = "".join(uncps(x) + "\n" for x in m.split(";")) if m != "" else ""
+        stp = res.stream("process_stdin")
+        stp.see(("prettier", tuple(argv)), nontrivial=True)
+        stp.compared += 1
+        if pr.returncode != 0 or pr.stdout.decode() != want:
+            res.disagree("process_stdin", {"tool": "moto_prettier", "argv": argv, "stdin": raw}, want, [pr.returncode, pr.stdout.decode()])
     # a big file (a reader with a size limit or a buffer would drop or cut lines), alone and between two others with "-" in the middle
     big = "".join(("%d print \"line %d\";x%d:goto %d\n" % (10 * k, k, k % 97, k)) if k % 3 else ("%d rem \"unterminated %d\n" % (10 * k, k)) for k in range(1, (1500 if not ctx.thorough else 20000)))
     cli_case(ctx, res, [big], use_stdin=False)
